@@ -123,6 +123,8 @@ def stereo_untouched(m, p, touched):
         if set(m._bonds[n]) != set(p._bonds[n]) or any(x in touched for x in m._bonds[n]):
             continue
         if p.atom(n).stereo is None:
+            if n not in p.chiral_tetrahedrons:
+                continue   # the centre is no longer stereogenic in the product (e.g. its 1,4-partner in the ring became planar): the label has to go
             return 'stereo label of an untouched centre lost'
         env = sorted(x for x in m._bonds[n] if m.atom(x).atomic_number != 1)
         if m._translate_tetrahedron_sign(n, env) != p._translate_tetrahedron_sign(n, env):
@@ -336,7 +338,14 @@ def run_builtin(shard):
                 key = (name,)
                 sig = str(p)
                 if key in ref and ref[key] != sig:
-                    acc.fail('product depends on atom numbering :: deprotection.%s' % name, case=tag, got=sig, expected=ref[key])
+                    # canonical strings are not unique on pseudo-asymmetric centres (C01 exclusion i): RDKit decides whether the two strings are one molecule
+                    from rdkit import Chem
+                    from ..oracle import rdk
+                    ra, rb = Chem.MolFromSmiles(sig), Chem.MolFromSmiles(ref[key])
+                    if ra is not None and rb is not None and rdk.same(ra, rb):
+                        acc.ood['canonical string not unique (C01 exclusion i), RDKit proves identity'] += 1
+                    else:
+                        acc.fail('product depends on atom numbering :: deprotection.%s' % name, case=tag, got=sig, expected=ref[key])
                 ref.setdefault(key, sig)
                 acc.outcomes[(name, sig != str(m))] += 1
     acc.sample({'built-in': names[:6], 'molecules': mols[:4]})
